@@ -114,10 +114,10 @@ Definition rows_with_nonstring (es : list json) : bool :=
 Definition has_byte (b : N) (s : bytes) : bool := existsb (N.eqb b) s.
 
 Definition yaml_fragile (s : bytes) : bool :=
-  has_byte 10 s && (starts_with 10 s || starts_with 9 s).
+  has_byte 10 s && (starts_with 10 s || starts_with 9 s || starts_with 32 s).
 
 Definition toml_bad_key (k : bytes) : bool :=
-  Nat.eqb (length k) 0 || existsb (fun c => (c =? 34) || (c =? 92) || (c <? 32) || (c =? 127))%N k.
+  Nat.eqb (length k) 0 || existsb (fun c => (c =? 34) || (c =? 92) || (c =? 91) || (c =? 93) || (c <? 32) || (c =? 127))%N k.
 
 Definition classify (c : case) : N :=
   match c_fmt c, c_doc c with
